@@ -4,6 +4,8 @@ From Coq.Strings Require Import Byte.
 From Gopki.Model Require Import Bytes Base64 Pem Der Asn1 Text Algs Glue Pkcs8 Ext Rdn Time X509 Generate HashView Dir Plan Run Ops Cli Merge Validate Current.
 From Gopki.Spec Require Import RegenSpec DirInv MergeSpec ValidateSpec X509Spec ExtSpec AdmissionSpec PolicySpec.
 From Gopki.Proofs Require Import RunProofs ExtProofs PlanProofs WfProofs X509Proofs DerProofs Asn1Proofs TimeRangeProofs RdnProofs GenerateProofs ValidateProofs TimeProofs AlgsProofs Base64Proofs PolicyProofs MergeProofs CliProofs OpsProofs FaultProofs HistoryProofs HashViewProofs Pkcs8Proofs RecoverProofs PemTornProofs AdmissionProofs PemProofs GlueProofs.
+From Gopki.Model Require Import Effective.
+From Gopki.Proofs Require Import EffectiveProofs.
 Import ListNotations.
 
 (* the implementation's index bookkeeping computes exactly the documented rule, for every extension type and every pair of lists *)
@@ -12,3 +14,18 @@ Theorem C08_merge_refines_spec :
     merge ext oid_eqb json_eqb prof cert = merge_spec ext oid_eqb json_eqb prof cert.
 Proof. exact merge_refines_spec. Qed.
 Print Assumptions C08_merge_refines_spec.
+
+(* on whole configurations: the effective extension list is the documented merge of the real extension types *)
+Theorem C08_effective_extensions :
+  forall (pr : profile) (c c' : cert_cfg),
+    effective (Some pr) c = Some c' ->
+    cc_exts c' = merge_spec any_ext any_ext_oid_eqb any_ext_eqb (pr_exts pr) (cc_exts c).
+Proof. exact effective_extensions_are_the_documented_merge. Qed.
+Print Assumptions C08_effective_extensions.
+
+(* a profile extension without content that remains in the effective list makes generation fail: never emitted empty, never dropped *)
+Theorem C08_contentless_fails :
+  forall (fx : fixes) (mfx : more_fixes) (sha1 : bytes -> bytes) (c : cert_cfg) (o : observed) (iss : option (list rdn * bytes)) (x : any_ext),
+    In x (cc_exts c) -> contentless x = true -> gen_tcert fx mfx sha1 c o iss = None.
+Proof. exact contentless_extension_fails_generation. Qed.
+Print Assumptions C08_contentless_fails.
